@@ -71,6 +71,12 @@ pub type TagSpec = (XName, Vec<(XName, String)>);
 /// taken from a tokenizer-only run (soup inputs, where no structure is known).
 pub fn check_input(input: &str, specs: Option<&[TagSpec]>, st: &mut Stats) -> Option<(String, String)> {
     let run = catch(|| parse_xml_simple(input, &XmlOpts::default())).ok()?;
+    check_sink(&run.sink, input, specs, st)
+}
+
+/// The oracle proper, over a sink filled by any front end (the XML tokenizer, or tokens handed to the
+/// tree builder directly).
+pub fn check_sink(sink: &crate::msink::MSink, input: &str, specs: Option<&[TagSpec]>, st: &mut Stats) -> Option<(String, String)> {
     let tok_tags: Vec<TagSpec>;
     let tags: Vec<(&XName, &Vec<(XName, String)>)> = match specs {
         Some(sp) => sp.iter().map(|t| (&t.0, &t.1)).collect(),
@@ -96,7 +102,7 @@ pub fn check_input(input: &str, specs: Option<&[TagSpec]>, st: &mut Stats) -> Op
             }
         }
     }
-    let inner = run.sink.inner.borrow();
+    let inner = sink.inner.borrow();
     let elems = &inner.created_elems;
     if elems.len() > tags.len() {
         return Some(("alignment".into(), format!("{} elements created from {} start/empty tags", elems.len(), tags.len())));
@@ -355,6 +361,10 @@ fn check_doc(doc: &GNode, rng: &mut Rng, st: &mut Stats) {
     if st.samples.len() < 2 && rng.chance(1, 400) {
         st.sample(json!({"input": input}));
     }
+    // the same document as tokens
+    if rng.chance(1, 3) {
+        check_doc_as_tokens(doc, &input, &specs, st);
+    }
     // attribute order must not matter
     let mut p = String::new();
     let mut pspecs = vec![];
@@ -370,6 +380,61 @@ fn check_doc(doc: &GNode, rng: &mut Rng, st: &mut Stats) {
         if let Some((sig, d)) = check_input(&p, Some(&pspecs), st) {
             st.violation(&sig, &format!("xml input={}: {d}", show(&p)), json!({"input": p}));
         }
+    }
+}
+
+/// The tree builder is a public TokenSink: hand it the document as tokens, attributes in the order
+/// the generator wrote them (the bundled tokenizer happens to move xmlns attributes to the front,
+/// another tokenizer need not). The same oracle applies.
+fn tokens_of(n: &GNode, out: &mut Vec<xml5ever::tokenizer::Token>) {
+    use xml5ever::tokenizer::{Tag, TagKind, Token};
+    use xml5ever::{Attribute, LocalName, Prefix, QualName};
+    let q = |prefix: &Option<String>, local: &str| QualName::new(prefix.as_ref().map(|p| Prefix::from(p.as_str())), xml5ever::ns!(), LocalName::from(local));
+    match n {
+        GNode::Raw(s) => {
+            if !s.starts_with('<') && !s.contains('&') {
+                out.push(Token::Characters(xml5ever::tendril::StrTendril::from_slice(s)));
+            }
+        },
+        GNode::Elem { prefix, local, attrs, kids, empty, end } => {
+            let name = q(prefix, local);
+            let attrs: Vec<Attribute> = attrs.iter().map(|a| Attribute { name: q(&a.prefix, &a.local), value: xml5ever::tendril::StrTendril::from_slice(a.val) }).collect();
+            out.push(Token::Tag(Tag { kind: if *empty { TagKind::EmptyTag } else { TagKind::StartTag }, name: name.clone(), attrs }));
+            if *empty {
+                return;
+            }
+            for k in kids {
+                tokens_of(k, out);
+            }
+            match end {
+                1 => out.push(Token::Tag(Tag { kind: TagKind::ShortTag, name: q(&None, ""), attrs: vec![] })),
+                2 => {},
+                _ => out.push(Token::Tag(Tag { kind: TagKind::EndTag, name, attrs: vec![] })),
+            }
+        },
+    }
+}
+
+fn check_doc_as_tokens(doc: &GNode, input: &str, specs: &[TagSpec], st: &mut Stats) {
+    use xml5ever::tokenizer::{Token, TokenSink};
+    let mut toks = vec![];
+    tokens_of(doc, &mut toks);
+    toks.push(Token::EndOfFile);
+    let r = catch(|| {
+        let tb = xml5ever::tree_builder::XmlTreeBuilder::new(crate::msink::MSink::new(), Default::default());
+        for t in toks {
+            let _ = tb.process_token(t);
+        }
+        tb.end();
+        tb.sink
+    });
+    let Ok(sink) = r else {
+        st.count("token_fed_runs_that_panicked(C04's business)");
+        return;
+    };
+    st.count("token_fed_runs");
+    if let Some((sig, d)) = check_sink(&sink, input, Some(specs), st) {
+        st.violation(&format!("tokens:{sig}"), &format!("the tags of {} handed to XmlTreeBuilder::process_token directly (attributes in source order): {d}", show(input)), json!({"input": input, "note": "replay re-parses the text; the token-fed run is regenerated from the seed"}));
     }
 }
 
@@ -450,7 +515,7 @@ pub fn run(args: &Args) -> (Meta, Stats) {
     });
     let mut m = super::meta(
         args,
-        "namespace-shape documents generated together with their tag/attribute lists (nested elements with xmlns / xmlns:p declarations, un-declarations, shadowing, unbound prefixes, xml/xmlns prefixes, the special-cased <script/>, empty and short tags, omitted end tags so one end tag pops several elements, attribute names that collide only by local name or only after resolution, shuffled attribute order; one element in 25 carries 20-90 attributes) plus XML soup and scaled-up documents (wide tags with duplicates 31-33 or more positions apart, 100-deep namespace scopes). For every element the sink receives, an independent resolver computes the namespace of the element and of each attribute from the declarations on the element's own tag (as the generator wrote it, not as the tokenizer reported it) over the scope of its parent in the built tree; a non-declaration attribute may be missing only if an earlier attribute of the same tag has the same expanded name; attribute-permuted renderings must give the same element namespaces and attribute expanded names. Non-trivial = the input contains a declaration; distinct by input hash.",
+        "namespace-shape documents generated together with their tag/attribute lists (nested elements with xmlns / xmlns:p declarations, un-declarations, shadowing, unbound prefixes, xml/xmlns prefixes, the special-cased <script/>, empty and short tags, omitted end tags so one end tag pops several elements, attribute names that collide only by local name or only after resolution, shuffled attribute order; one element in 25 carries 20-90 attributes) plus XML soup and scaled-up documents (wide tags with duplicates 31-33 or more positions apart, 100-deep namespace scopes). For every element the sink receives, an independent resolver computes the namespace of the element and of each attribute from the declarations on the element's own tag (as the generator wrote it, not as the tokenizer reported it) over the scope of its parent in the built tree; a non-declaration attribute may be missing only if an earlier attribute of the same tag has the same expanded name; the same documents are also handed to the tree builder as tokens (it is a public TokenSink) with the attributes in source order, xmlns declarations not moved to the front; attribute-permuted renderings must give the same element namespaces and attribute expanded names. Non-trivial = the input contains a declaration; distinct by input hash.",
         &[
             "nesting is read from the tree the builder produced, so the oracle shares none of its push/pop bookkeeping; a wrong nesting itself is outside C16",
             "declarations that try to rebind xml/xmlns or bind a prefix to the xmlns namespace are treated as ignored; a tag never declares the same prefix twice (not well-formed, outcome undefined)",
@@ -465,6 +530,7 @@ pub fn run(args: &Args) -> (Meta, Stats) {
         ("attr:prefixed".into(), 500),
         ("permutation_runs".into(), 500),
         ("tags_with_33_or_more_attributes".into(), 100),
+        ("token_fed_runs".into(), 1000),
     ];
     (m, st)
 }
